@@ -21,8 +21,25 @@ fn run_blitz(toks: &[&str], em: &mut Emitter) {
     });
 }
 
+/// `blit16`: an UNCOMPRESSED 16 bpp event (bottom-up 5-6-5 pixels) painted through decompress()
+fn run_blit16(toks: &[&str], em: &mut Emitter) {
+    let line = toks.join(" ");
+    let v: Vec<usize> = toks[1..].iter().map(|t| t.parse().unwrap()).collect();
+    let (width, buflen, left, top, right, bottom, bw, bh, npix) = (v[0], v[1], v[2], v[3], v[4], v[5], v[6], v[7], v[8]);
+    em.case(&line, move || {
+        let mut buffer: Vec<u32> = (0..buflen).map(|j| 0xB000_0000 | j as u32).collect();
+        let mut data = Vec::with_capacity(npix * 2);
+        for k in 0..npix { let px = ((k * 2749 + 7) & 0xffff) as u16; data.extend_from_slice(&px.to_le_bytes()); }
+        let ev = BitmapEvent { dest_left: left as u16, dest_top: top as u16, dest_right: right as u16, dest_bottom: bottom as u16, width: bw as u16, height: bh as u16, bpp: 16, is_compress: false, data };
+        let r = crate::gui::verif_fast_bitmap_transfer(&mut buffer, width, ev);
+        let cells: Vec<String> = buffer.iter().enumerate().map(|(j, c)| if *c == (0xB000_0000 | j as u32) { ".".to_string() } else { format!("?{:08x}", c) }).collect();
+        Obs::new(format!("{} {}", if r.is_ok() { "ok" } else { "E" }, cells.join(","))).nt(r.is_ok())
+    });
+}
+
 pub fn run_case(toks: &[&str], em: &mut Emitter) {
     if toks[0] == "blitz" { return run_blitz(toks, em); }
+    if toks[0] == "blit16" { return run_blit16(toks, em); }
     let line = toks.join(" ");
     let v: Vec<usize> = toks[1..].iter().map(|t| t.parse().unwrap()).collect();
     let (width, buflen, left, top, right, bottom, bw, bh, imgpix, extra) = (v[0], v[1], v[2], v[3], v[4], v[5], v[6], v[7], v[8], v[9]);
@@ -77,6 +94,15 @@ fn emit(em: &mut Emitter, v: &[usize]) {
 pub fn generate(thorough: bool, seed: u64, part: (usize, usize), em: &mut Emitter) {
     let mut r = Rng::new(seed ^ 0xC19);
     if part.0 == 0 {
+        // uncompressed 16 bpp images, odd and even widths, exact / short / long data
+        for bw in 0..=5usize { for bh in 0..=3usize { for &dn in &[0i64, -1, 1] {
+            let npix = ((bw * bh) as i64 + dn).max(0) as usize;
+            let (r, b) = (bw.max(1) - 1, bh.max(1) - 1);
+            let line = format!("blit16 8 40 0 0 {} {} {} {} {}", r, b, bw, bh, npix);
+            let toks: Vec<&str> = line.split(' ').collect(); run_case(&toks, em);
+            let line = format!("blit16 8 40 1 1 {} {} {} {} {}", r + 1, b + 1, bw, bh, npix);
+            let toks: Vec<&str> = line.split(' ').collect(); run_case(&toks, em);
+        } } }
         for &(bw, bh) in &[(0usize, 0usize), (0, 1), (0, 3), (1, 0), (5, 0), (1, 1), (2, 2)] { for &(l, t, rr, b) in &[(0usize, 0usize, 0usize, 0usize), (0, 0, 1, 1), (1, 1, 0, 0), (0, 0, 3, 3)] {
             let line = format!("blitz 4 16 {} {} {} {} {} {}", l, t, rr, b, bw, bh);
             let toks: Vec<&str> = line.split(' ').collect(); run_case(&toks, em);
